@@ -49,8 +49,8 @@ func (m *Metrics15ShortcutPlanner) Process(ctx *shared.PlannerContext) (sql.ISel
 	switch m.Function {
 	case "rate":
 		col = sql.NewRawObject(
-			fmt.Sprintf("toFloat64(countMerge(count)) / %f",
-				float64(m.Duration.Milliseconds())/1000))
+			fmt.Sprintf("toFloat64(countMerge(count)) / %s",
+				secondsText(m.Duration)))
 	case "count_over_time":
 		col = sql.NewRawObject("countMerge(count)")
 	}
